@@ -328,6 +328,32 @@ def run(ctx):
             f = 'exception-%s: %s' % (c['op'], type(ex).__name__ + ':' + str(ex)[:100])
         if f:
             ctx.report(c, 'failure', f)
+    # dot / outer / solve with one operand constant in t (all higher coefficients exactly zero) but with a different zeroth
+    # coefficient in every direction, and with whole orders missing (sparse patterns): on every run
+    for kind in ('dot', 'outer', 'solve'):
+        for which in ('x', 'y'):
+            for pat in ('const', 'odd-orders-zero'):
+                D, P, n = 3, rng.choice([2, 3]), 2
+                if kind == 'dot':
+                    c = {'op': 'dot', 'D': D, 'P': P, 'sub': 'mm', 'x': rand_coeffs(rng, (D, P, n, 2), -2, 2), 'y': rand_coeffs(rng, (D, P, 2, 3), -2, 2)}
+                elif kind == 'outer':
+                    c = {'op': 'outer', 'D': D, 'P': P, 'x': rand_coeffs(rng, (D, P, n), -2, 2), 'y': rand_coeffs(rng, (D, P, 3), -2, 2)}
+                else:
+                    c = {'op': 'solve', 'D': D, 'P': P, 'sub': 'uu', 'x': ops.gen_square(rng, D, P, n), 'y': rand_coeffs(rng, (D, P, n, 2), -2, 2)}
+                a = np.array(c[which])
+                if pat == 'const':
+                    a[1:] = 0
+                else:
+                    a[1::2] = 0
+                c[which] = a
+                ctx.evaluations += 1
+                ctx.count('op=%s:sparse-%s' % (kind, pat))
+                try:
+                    f = check(ctx, c)
+                except Exception as ex:
+                    f = 'exception-%s: %s' % (c['op'], type(ex).__name__ + ':' + str(ex)[:100])
+                if f:
+                    ctx.report(c, 'failure', f)
     # trace of every rectangular shape up to 5 x 5 (tall by one, by two or more rows, wide), on every run
     for (r_, c_) in [(a_, b_) for a_ in range(1, 6) for b_ in range(1, 6)]:
         D, P = rng.randint(1, 3), rng.randint(1, 2)
